@@ -18,7 +18,7 @@ func init() { core.Register("C17", checkC17) }
 
 type c17ev struct {
 	Tag    string // value the layers above put into the context
-	Layer  int // -1 = base channel
+	Layer  int    // -1 = base channel
 	Kind   string
 	Method string
 	Req    interface{}
@@ -386,18 +386,18 @@ func checkC17(e *core.Env) {
 			}
 		}
 	}
-	}
+}
 
-	// lazyConn is a wrapper whose underlying channel changes over time.
-	type lazyConn struct{ cur grpc.ClientConnInterface }
+// lazyConn is a wrapper whose underlying channel changes over time.
+type lazyConn struct{ cur grpc.ClientConnInterface }
 
-	func (l *lazyConn) Invoke(ctx context.Context, method string, req, reply interface{}, opts ...grpc.CallOption) error {
+func (l *lazyConn) Invoke(ctx context.Context, method string, req, reply interface{}, opts ...grpc.CallOption) error {
 	return l.cur.Invoke(ctx, method, req, reply, opts...)
-	}
-	func (l *lazyConn) NewStream(ctx context.Context, desc *grpc.StreamDesc, method string, opts ...grpc.CallOption) (grpc.ClientStream, error) {
+}
+func (l *lazyConn) NewStream(ctx context.Context, desc *grpc.StreamDesc, method string, opts ...grpc.CallOption) (grpc.ClientStream, error) {
 	return l.cur.NewStream(ctx, desc, method, opts...)
-	}
-	func (l *lazyConn) Unwrap() grpc.ClientConnInterface { return l.cur }
+}
+func (l *lazyConn) Unwrap() grpc.ClientConnInterface { return l.cur }
 
 type c17TagKey struct{}
 
